@@ -285,6 +285,102 @@ def wiskiT [Field α] (Kuu P : DMat g g α) : DMat g g α := DMat.one.add (Kuu.m
 
 end interp
 
+/-! ### WISKI fantasy HISTORIES: `get_fantasy_model` called repeatedly on one (base) object
+
+`get_fantasy_strategy` reads the two caches of the strategy it is called on and hands UPDATED caches to the new strategy.
+The update must be out of place: the object it is called on keeps its caches, so a second, third, … fantasy model derived
+from the same base object is again "base data ++ its own fantasy data" (and never sees the earlier fantasy targets). -/
+
+section wiskiHistory
+variable {g : Nat}
+
+/-- the two WISKI caches a strategy object holds (`interp_inner_prod`, `interp_response_cache`) -/
+structure WiskiState (g : Nat) (α : Type) where
+  innerProd : DMat g g α
+  response : DMat g 1 α
+
+/-- one `get_fantasy_model(x_f, y_f)` request: fantasy interpolation matrix `W_f`, inverse fantasy noise, residual `y_f − μ_f` -/
+structure FantasyReq (g : Nat) (α : Type) where
+  nf : Nat
+  Wf : DMat nf g α
+  dinvf : Fin nf → α
+  rf : DMat nf 1 α
+
+/-- the caches of the base data `(W, D, r)` -/
+def wiskiBase [Field α] {n : Nat} (W : DMat n g α) (dinv : Fin n → α) (r : DMat n 1 α) : WiskiState g α :=
+  ⟨wiskiInnerProd W dinv, wiskiResponse W dinv r⟩
+
+/-- `get_fantasy_strategy` as a transition of the object it is called on: `(caches of self AFTER the call, caches handed
+to the new strategy)`.  Out of place: `self` is returned unchanged. -/
+def wiskiFantasyStep [Field α] (self : WiskiState g α) (q : FantasyReq g α) : WiskiState g α × WiskiState g α :=
+  let u := wiskiUpdate self.innerProd self.response q.Wf q.dinvf q.rf
+  (self, ⟨u.1, u.2⟩)
+
+/-- a history of requests all issued against the same object, for an arbitrary transition `step` (the hand-written one
+above, or the one regenerated from the source): `(caches of the object after the history, caches of the new strategies)` -/
+def wiskiFantasyHistory (step : WiskiState g α → FantasyReq g α → WiskiState g α × WiskiState g α)
+    (self : WiskiState g α) : List (FantasyReq g α) → WiskiState g α × List (WiskiState g α)
+  | [] => (self, [])
+  | q :: qs =>
+    let s1 := step self q
+    let rest := wiskiFantasyHistory step s1.1 qs
+    (rest.1, s1.2 :: rest.2)
+
+/-- the caches recomputed from scratch on base data ++ the fantasy data of request `q` -/
+def wiskiRecompute [Field α] {n : Nat} (W : DMat n g α) (dinv : Fin n → α) (r : DMat n 1 α) (q : FantasyReq g α) :
+    WiskiState g α :=
+  ⟨wiskiInnerProd (vstack W q.Wf) (Fin.addCases dinv q.dinvf), wiskiResponse (vstack W q.Wf) (Fin.addCases dinv q.dinvf) (vstack r q.rf)⟩
+
+end wiskiHistory
+
+/-! ### `GridInterpolationKernel._compute_grid`: which input entry each interpolated coordinate is
+
+`_compute_grid(inputs, last_dim_is_batch)` flattens the `n × d` inputs into a list of points for
+`Interpolation.interpolate`.  Ordinary mode: point `p` is row `p`, coordinate `c` is column `c`.  `last_dim_is_batch`
+(additive structure, one 1-D kernel per input dimension): the inputs are TRANSPOSED first, so the `d·n` one-coordinate
+points are column 0 of all rows, then column 1 of all rows, …: point `p = i·n + a` is entry `(a, i)`. -/
+
+/-- `(row, column)` of the `n × d` input read as coordinate `c` of flattened point `p` -/
+def computeGridSource (lastDimIsBatch : Bool) (n : Nat) (p c : Nat) : Nat × Nat :=
+  if lastDimIsBatch then (p % n, p / n) else (p, c)
+
+/-! ### copies of an SGPR model: object identity under `copy.deepcopy(x, memo)`
+
+`InducingPointKernel` holds a REFERENCE to the model's likelihood (the added loss term reads its noise).  A deep copy of
+the model must map the two references to one new object, which is what threading the `memo` dictionary does. -/
+
+/-- how `__deepcopy__` treats one constructor argument -/
+inductive CopyMode where
+  /-- `copy.deepcopy(self.x, memo)` -/
+  | memo
+  /-- `copy.deepcopy(self.x)`: a private memo — always a new object -/
+  | fresh
+  /-- `self.x` passed on as it is -/
+  | shared
+  /-- anything else -/
+  | other
+  deriving DecidableEq, Repr
+
+/-- state of one `deepcopy` traversal: the memo (old id ↦ new id) and the next unused object id -/
+structure CopySt where
+  memo : List (Nat × Nat)
+  next : Nat
+
+/-- copying one reference to object `id` -/
+def copyRef (mode : CopyMode) (st : CopySt) (id : Nat) : Nat × CopySt :=
+  match mode with
+  | .memo =>
+    match st.memo.lookup id with
+    | some j => (j, st)
+    | none => (st.next, ⟨(id, st.next) :: st.memo, st.next + 1⟩)
+  | .fresh => (st.next, ⟨st.memo, st.next + 1⟩)
+  | _ => (id, st)
+
+/-- training objective of an SGPR model whose kernel reads the noise `noiseK` for the added loss term while the marginal
+likelihood term `logN` was computed with the model's own likelihood -/
+def sgprObjective [Field α] {n : Nat} (logN : α) (kdiag qdiag noiseK : Fin n → α) : α :=
+  logN + titsiasAddedLoss kdiag qdiag noiseK
+
 /-! ### primitives of linear_operator / torch that the regenerated strategy algebra (`Gen/StructuredAlgebra.lean`)
 is written against.  Their contracts (`inv A = A⁻¹`, `cholL A · (cholL A)ᵀ = A`, `cholLInv A = (cholL A)⁻¹`,
 `cholUInv A = U⁻¹` with `UᵀU = A`, `sqrt c · sqrt c = c`) are hypotheses of the theorems, never assumed here. -/
